@@ -375,6 +375,11 @@ func interpret(r Raw, sep string, attrName string) (wire.Node, error) {
 		if err != nil || kind == "b" {
 			return bad()
 		}
+		if kind == "n" && (v > 1<<53 || v < -(1<<53)) {
+			// a JSON number is a double for most parsers: beyond 2^53 it no longer denotes one integer (the profile
+			// asks for a hex string beyond 2^52)
+			return wire.Node{}, fmt.Errorf("%s: JSON number %s is not exactly representable by parsers that read numbers as doubles", r.Tag, val)
+		}
 		n.Int = v
 	case "BigInteger":
 		n.Type = wire.BigInteger
@@ -382,6 +387,9 @@ func interpret(r Raw, sep string, attrName string) (wire.Node, error) {
 			b, ok := new(big.Int).SetString(val, 10)
 			if !ok {
 				return bad()
+			}
+			if b.BitLen() > 53 {
+				return wire.Node{}, fmt.Errorf("%s: JSON number %s is not exactly representable by parsers that read numbers as doubles", r.Tag, val)
 			}
 			n.Big = b
 			return n, nil
